@@ -86,7 +86,7 @@ CLAIMS = {
             "bounded-exhaustive enumeration of plot-directory contents at start-up and of action histories with full directory listings, on the real keeper over real massdb.v1 files",
             "seqx",
             "(a) Start-up: every conflict-free combination of <=3 (quick) / <=4 (thorough) of 31 directory-content entries (valid registered/ready, renamed ordinal/key/bit length, foreign key, 7 wrong-header variants, truncations, legacy names, case variants, unrelated files) x 2 directories under 3 proof_dir orders: exact index set, once each, first directory wins, ready iff recorded progress complete, proofs only from valid files (real proof records embedded), no file deleted/truncated/modified except the content-preserving legacy rename. (b) Histories: every sequence of 3/4 actions of {plot,mine,stop,remove,delete} x {space,bulk} + gate release over 5 configurations with the plotter parked at gates (plotting really held), listing (names, sizes, hashes) compared after every action: remove/delete refused while plotting/mining and change nothing, delete removes exactly that space's files, nothing else removes anything. (c) (plot database level): the real massdb.v1 plotter is stopped gracefully at every hook point of both passes and run into a full disk at every window flush, for every window plan; whenever the table left behind is incomplete both plot files must still exist and map A must not have shrunk.",
-            "massdb Plot() is stubbed in (b) (no real plotting; part (c) "plot-files" runs the real plotter); case-variant names, a B file without its A and leading-zero ordinals are diagnostics; two directories, bit lengths 24/26",
+            "massdb Plot() is stubbed in (b) (no real plotting; part (c) plot-files runs the real plotter); case-variant names, a B file without its A and leading-zero ordinals are diagnostics; two directories, bit lengths 24/26",
             "DESIGN.md §C11"),
     "C12": ("fault_enumeration",
             "exhaustive fault injection: every storage event of every (reached state, mutating operation) pair x {failed write/commit, crash before, crash after} on the real wallet over a fault-injecting db.DB wrapper",
